@@ -441,6 +441,7 @@ P(op(_, _, _, _, _)) == op(ev', rep, mach, mach', MM)
 
 AP_C01_Pos      == [][P(C01_Pos)]_vars
 AP_C01_Mode     == [][P(C01_Mode)]_vars
+AP_C01_Carries  == [][P(C01_Carries)]_vars
 AP_C02_Safe     == [][P(C02_Safe)]_vars
 AP_C02_Raises   == [][P(C02_Raises)]_vars
 AP_C02_OnlyDoc  == [][P(C02_OnlyDoc)]_vars
